@@ -179,7 +179,7 @@ def run_case(spec):
 
 
 def run():
-    chk = Check("C17", props_modules=["GFO.Props.C17", "GFO.Props.SmboRuns", "GFO.Props.DirectSelect", "GFO.Gen.SmboGenCheck", "GFO.Gen.TrackerGenCheck"], gen_steps=(translators.gen_smbo, translators.gen_tracker))
+    chk = Check("C17", props_modules=["GFO.Props.C17", "GFO.Props.SmboRuns", "GFO.Props.DirectSelect", "GFO.Gen.SmboGenCheck", "GFO.Gen.TrackerGenCheck", "GFO.Gen.DirectGenCheck"], gen_steps=(translators.gen_smbo, translators.gen_tracker, translators.gen_direct))
     chk.build_and_audit()
     r = C.rng("C17")
     quick = C.tier() != "thorough"
